@@ -21,6 +21,7 @@ BOUND = ("d in {1,2,3} (standard), {2,3} (adaptive); domains [0,1]^d and one shi
          "plus stops reached by continue_adaptive_refinement after an earlier stop; one stop-keep-continue history with solutions_storage per configuration "
          "(report stability) and a second/third perform_operation on the same StandardCombi; fixed anchor cases first (incl. extend-split on LagrangeGrid p=2 with "
          "automatic_extend_split); seeded pseudo-random selection")
+BOUND += "; fault / magnitude additions: two fault histories on the dimension-wise strategy: the integrand raises once at its k-th call, k scanned over the run (about 15 positions), the run is continued if the fault surfaces"
 RULE = BOUND + ("; a case is one (strategy configuration, integrand, stopping limits[, resumed from]) ; non-trivial = the scheme has more than one "
                 "component grid and (adaptive) at least one refinement step happened before the stop")
 CLAUSES = {
